@@ -84,10 +84,13 @@ LineValue(ln, sig, ev, M) ==
            ELSE EvalL(ln.node, sig, ev, M)
   IN FMul(Pref(ln.num, ln.den, ln.s2, ln.s3), v)
 
-SwapSig(sig, ps) ==      \* apply the transpositions ps (in order) to the assignment
+SwapSig(sig, ps) ==
+  \* P2 P1 applied to an expression one after another = the transpositions
+  \* applied to the assignment in reverse order
   LET RECURSIVE Ap(_, _)
       Ap(s, k) == IF k > Len(ps) THEN s
-                  ELSE Ap([s EXCEPT ![ps[k][1]] = s[ps[k][2]], ![ps[k][2]] = s[ps[k][1]]], k + 1)
+                  ELSE LET j == Len(ps) + 1 - k IN
+                       Ap([s EXCEPT ![ps[j][1]] = s[ps[j][2]], ![ps[j][2]] = s[ps[j][1]]], k + 1)
   IN Ap(sig, 1)
 
 BlockValue(b, sig, ev, M) ==
